@@ -128,11 +128,24 @@ def _occ(cin):
     return {"res": "ok", "obins": o, "ubins": u, "exact": bool(e1 and e2 and ncols == len(cin["Eo"]) + len(cin["Eu"]) + 2)}
 
 
+# Monday-to-Sunday weeks of local hours, in the order of HowWeeks (SegDefs.tla): plain; Sundays of 23 / 25 hours in four zones
+HOW_WEEKS = [("2020-01-06", "America/Chicago"), ("2020-03-02", "America/Chicago"), ("2020-10-26", "America/Chicago"),
+             ("2020-03-30", "Australia/Sydney"), ("2020-09-28", "Australia/Sydney"), ("2020-03-23", "Europe/Berlin"),
+             ("2020-10-19", "Europe/Berlin"), ("2020-03-02", "America/Havana")]
+_how_memo = {}
+
+
 def _how(cin):
-    idx = pd.date_range("2020-01-06", periods=168, freq="h", tz="America/Chicago")
-    f = _st["tf"](idx)
+    wk = cin.get("wk", 0)
+    if wk not in _how_memo:
+        day, tz = HOW_WEEKS[wk]
+        t0 = pd.Timestamp(day, tz=tz)
+        idx = pd.date_range(t0, pd.Timestamp(day, tz=tz) + pd.DateOffset(days=7), freq="h", inclusive="left")
+        _how_memo[wk] = (idx, _st["tf"](idx))
+    idx, f = _how_memo[wk]
     row = f[(idx.dayofweek == cin["dow"]) & (idx.hour == cin["hour"])]
-    return {"res": "ok", "how": int(row["hour_of_week"].iloc[0]) if len(row) == 1 else -1}
+    vals = sorted(set(int(v) for v in row["hour_of_week"]))
+    return {"res": "ok", "n": int(len(row)), "how": vals[0] if len(vals) == 1 else -1}
 
 
 def realise(cin, variant):
